@@ -89,10 +89,10 @@ def patch_overrides(repo, patch_text):
     cur = None
     for line in patch_text.splitlines():
         if line.startswith('--- '):
-            old_rel = line[4:].strip()
+            old_rel = line[4:].split('\t')[0].strip()
             continue
         if line.startswith('+++ '):
-            rel = line[4:].strip()
+            rel = line[4:].split('\t')[0].strip()
             rel = rel[2:] if rel.startswith(('a/', 'b/')) else rel
             if rel == '/dev/null':
                 return None                 # a deleted module: not handled in memory
